@@ -132,20 +132,33 @@ theorem C05_found_in_alerts (H : Str) (t : Topo) (id name sev : Str) (cands : Li
     split <;> rfl
 
 /-- JSON exact mode: some alert with confidence ≥ 0.99 is returned whenever the indexed signature
-    is in the database (the first such signature in file order wins). -/
+    is in the database (the first signature WITH THE SAME TOPOLOGY HASH in file order wins). -/
 theorem C05_found_exact_json (H : Str) (t : Topo) (id name sev : Str) (db : List Sig)
     (hmem : indexFunction H t id name sev ∈ db) :
     ∃ r, jsonScanExact H t db = some r ∧ r.conf.ge (99/100) = true := by
   unfold jsonScanExact
-  have hsome : ((db.map (fun s => matchSignature H t s 0)).find?
+  have hmemf : indexFunction H t id name sev ∈ db.filter (fun s => decide (s.topoHash = H)) := by
+    refine List.mem_filter.mpr ⟨hmem, ?_⟩
+    simp [indexFunction]
+  have hsome : (((db.filter (fun s => decide (s.topoHash = H))).map (fun s => matchSignature H t s 0)).find?
       (fun r => r.conf.ge (99/100))).isSome = true := by
     rw [List.find?_isSome]
     refine ⟨matchSignature H t (indexFunction H t id name sev) 0,
-      List.mem_map.mpr ⟨_, hmem, rfl⟩, ?_⟩
+      List.mem_map.mpr ⟨_, hmemf, rfl⟩, ?_⟩
     rw [C05_self_match]
     simp only [Conf.ge, decide_eq_true_eq]
     norm_num
   obtain ⟨r, hr⟩ := Option.isSome_iff_exists.mp hsome
   exact ⟨r, hr, List.find?_some (p := fun r : MatchResult => r.conf.ge (99/100)) hr⟩
+
+/-- ... and whatever JSON exact mode returns belongs to a signature with the SAME topology hash as
+    the scanned function (it cannot be shadowed by an unrelated signature that merely scores high). -/
+theorem C05_exact_json_same_hash (H : Str) (t : Topo) (db : List Sig) (r : MatchResult)
+    (h : jsonScanExact H t db = some r) :
+    ∃ s ∈ db, s.topoHash = H ∧ r = matchSignature H t s 0 := by
+  unfold jsonScanExact at h
+  obtain ⟨s, hsf, hr⟩ := List.mem_map.mp (List.mem_of_find?_eq_some h)
+  obtain ⟨hs, hh⟩ := List.mem_filter.mp hsf
+  exact ⟨s, hs, by simpa using hh, hr.symm⟩
 
 end Sfw
